@@ -53,12 +53,14 @@ def gen(seed, nepisodes, prefix='r', kind='packet'):
         ops = []
         first = rand_packet(rng)
         live = {}
+        has_payload = {}
         for k in range(1, n + 1):
             p = first if k == 1 else (variant(rng, first) if rng.random() < 0.6 else rand_packet(rng))
             if kind != 'packet' and p.get('empty'):
                 p = {'mt': 1, 'pt': 1, 'pl': []}
             ops.append({'op': 'make', 'slot': k, 'pkt': p})
             live[k] = True
+            has_payload[k] = not p.get('empty')
         nxt = n + 1
         for _ in range(rng.choice([10, 30, 60])):
             r = rng.random()
@@ -70,22 +72,29 @@ def gen(seed, nepisodes, prefix='r', kind='packet'):
             if r < 0.15:
                 ops.append({'op': 'copy', 'dst': nxt, 'src': s})
                 live[nxt] = True
+                has_payload[nxt] = has_payload.get(s)
                 nxt += 1
             elif r < 0.25:
                 ops.append({'op': 'move', 'dst': nxt, 'src': s})
                 live[nxt] = True
+                has_payload[nxt] = has_payload.get(s)
                 live[s] = False
                 nxt += 1
             elif r < 0.5:
                 ops.append({'op': 'assign', 'dst': d, 'src': s})
                 live[d] = True
+                has_payload[d] = has_payload.get(s)
             elif r < 0.6 and d != s:
                 ops.append({'op': 'massign', 'dst': d, 'src': s})
                 live[d] = True
+                has_payload[d] = has_payload.get(s)
                 live[s] = False
             elif r < 0.75:
                 if kind == 'packet':
-                    ops.append({'op': 'mutate', 'slot': s, 'ts': wire.rbytes(rng, 8), 'fl': rng.randrange(256)})
+                    m = {'op': 'mutate', 'slot': s, 'ts': wire.rbytes(rng, 8), 'fl': rng.randrange(256)}
+                    if has_payload.get(s) and rng.random() < 0.4:
+                        m['ptvia'] = rng.randrange(1, 256)        # mutate the payload through getPayload()
+                    ops.append(m)
                 else:
                     ops.append({'op': 'mutate', 'slot': s, 'pt': rng.randrange(1, 256)})
             else:
